@@ -1,5 +1,5 @@
 """Common driver for the solver-level properties (C01, C04, C08, C09, ...)."""
-import vlib, spine, oracles, solver_suite as SS
+import vlib, spine, oracles, solver_suite as SS, gen_cases as G
 
 def extraction_crosscheck(ctx, corpus_texts, cases):
     """the fast extraction (ExtrOcamlZBigInt + own gcd/log2 directives, part of the trusted base) must agree with the reference
@@ -8,10 +8,15 @@ def extraction_crosscheck(ctx, corpus_texts, cases):
     fast, m1 = vlib.build_model(ctx, "fast"); ref, m2 = vlib.build_model(ctx, "ref")
     if fast is None or ref is None:
         ctx.ob("extraction:fast-vs-reference", "extraction", False, (m1 or "") + (m2 or "")); return
-    # the reference extraction computes on Coq's inductive binary integers: keep to short runs
-    short = [c for c in cases if int(dict(c.settings).get("max_iter", "250")) <= 3 and not any(t in ("clamp",) for t in c.tags)
-             and all(pb["n"] <= 3 for pb in c.pbs.values())] or cases[:1]
-    small = sorted(short, key=lambda c: len(c.text()))[: (3 if ctx.quick() else 8)]
+    # the reference extraction computes on Coq's inductive binary integers (quadratic multiplication, no GMP): only tiny, short
+    # runs are feasible; dedicated cases: n = 2, one inequality, one bound, 1-2 iterations
+    import random as _r
+    rr = _r.Random(ctx.seed)
+    small = []
+    for i in range(2 if ctx.quick() else 6):
+        pb = G.gen_problem(rr, n=2, p=rr.choice([0, 1]), m=1, bound_kinds=[rr.choice(["lower", "both", "free"]), rr.choice(["free", "upper"])], special=1.0)
+        st = list(G.FRIENDLY) + [("max_iter", str(1 + i % 2)), ("preconditioner_iter", str(i % 3))]
+        small.append(SS.Case("xc%d" % i, st, ["CPBITS 32", G.op_setup(pb), G.op_solve()], {1: pb}, ["xcheck"]))
     txt = "".join(corpus_texts) + "".join(c.text() for c in small)
     cf = os.path.join(ctx.work, "xcheck.cases"); open(cf, "w").write(txt)
     rc1, o1 = vlib.run_bin(fast, cf, timeout=900); rc2, o2 = vlib.run_bin_chunked(ref, txt, ctx.work, "xref", timeout=3000, nchunks=8)
